@@ -86,6 +86,23 @@ def run(tier, seed, replay=None):
             else:
                 x, y = ops["x"], ops["y"]; exact = x * y
                 call = (lambda x=x, y=y, g=ops.get("guess"): torchtt.dmrg_hadamard(x, y, g, eps=eps, nswp=40))
+        if i in (10, 11, 12, 13) and not uneven:
+            # structured operands with exact zeros: identity / shift operators, vectors with a zero at index 0 of the last mode (interfaces of norm exactly zero)
+            d = rng.choice([2, 3]); N = [rng.choice([3, 4]) for _ in range(d)]; M = list(N); dtype = torch.float64; cplx = False; singleton = False
+            eye_ = torchtt.eye(N, dtype=dtype)
+            sh_c = lambda n_: torch.diag(torch.ones(n_ - 1, dtype=dtype), -1).reshape(1, n_, n_, 1)
+            shift = torchtt.TT([sh_c(n_) for n_ in N])
+            xv = solverkit.rand_tt_float(rng, N, solverkit.ranks(rng, d, 2), dtype)
+            cs_ = [c.clone() for c in xv.cores]; cs_[-1][:, 0, :] = 0.0; xz = torchtt.TT(cs_)
+            e_hot = torchtt.TT([torch.eye(n_, dtype=dtype)[0].reshape(1, n_, 1) for n_ in N])
+            which_ = i - 10
+            if which_ == 0: routine = "amen_mv"; A, x = eye_, xz; ops = {"A": A, "x": x}; exact = A @ x; guess = None; call = lambda A=A, x=x: torchtt.amen_mv(A, x, eps=eps, nswp=40)
+            elif which_ == 1: routine = "amen_mm"; A, B = shift, shift; ops = {"A": A, "B": B}; exact = A @ B; guess = None; call = lambda A=A, B=B: torchtt.amen_mm(A, B, eps=eps, nswp=40)
+            elif which_ == 2: routine = "amen_mv"; A, x = shift, e_hot; guess = e_hot.clone(); ops = {"A": A, "x": x, "guess": guess}; exact = A @ x; call = lambda A=A, x=x, g=guess: torchtt.amen_mv(A, x, eps=eps, x0=g, nswp=40)
+            else: routine = "fast_matvec"; A, x = eye_, xz; ops = {"A": A, "x": x}; exact = A @ x; guess = None; call = lambda A=A, x=x: A.fast_matvec(x, eps=eps, nswp=40, use_cpp=False)
+            want_N, want_M = (N, None) if routine != "amen_mm" else (N, N)
+            desc.update(routine=routine, d=d, N=N, M=M, structured=True, guess=guess is not None)
+            nswp = 40; single = False
         force_cs = (not uneven) and i in (4, 5, 6, 7, 8, 9)
         if routine in ("amen_mv", "amen_mm") and (rng.random() < 0.2 or force_cs):
             # every core of both operands scaled (cores of norm ~100 or ~0.01): the accuracy is relative to the product, whatever the cores' scale
@@ -97,7 +114,7 @@ def run(tier, seed, replay=None):
             else:
                 A = sc_all(ops["A"]); B = sc_all(ops["B"]); ops["A"], ops["B"] = A, B; exact = A @ B
                 call = (lambda A=A, B=B, g=ops.get("guess"): torchtt.amen_mm(A, B, eps=eps, X0=g, nswp=40))
-        if rng.random() < 0.3 and not (single or nswp != 40 or "core_scale" in desc):          # the contract is relative: scale one operand by a power of ten
+        if rng.random() < 0.3 and not (single or nswp != 40 or "core_scale" in desc or desc.get("structured")):          # the contract is relative: scale one operand by a power of ten
             sc = rng.choice([1e-6, 1e-3, 1e3, 1e6]); desc["scale"] = sc
             k0 = list(ops.keys())[-1] if "guess" not in ops else list(ops.keys())[-2]
             ops[k0] = ops[k0] * sc
@@ -107,7 +124,7 @@ def run(tier, seed, replay=None):
                 y = ops["y"]; exact = x * y
             else:
                 B = ops["B"]; exact = A @ B
-        kd = routine + ("+guess" if guess is not None else "") + (" singleton-mode" if singleton else "") + (" uneven-bonds" if uneven else "") + (" nswp<=3" if nswp != 40 else "") + (" single-precision" if single else "") + (" cores-scaled" if "core_scale" in desc else "")
+        kd = routine + ("+guess" if guess is not None else "") + (" singleton-mode" if singleton else "") + (" uneven-bonds" if uneven else "") + (" nswp<=3" if nswp != 40 else "") + (" single-precision" if single else "") + (" cores-scaled" if "core_scale" in desc else "") + (" structured-zeros" if desc.get("structured") else "")
         dist[kd] = dist.get(kd, 0) + 1
         if i % 20 == 0 and len(samples) < 5: samples.append(desc)
         snaps = {k: history.Snap(v) for k, v in ops.items()}
